@@ -2,6 +2,8 @@ package c08
 
 import (
 	"context"
+	"math/big"
+	"time"
 
 	"perun.network/go-perun/channel"
 	"perun.network/go-perun/client"
@@ -85,4 +87,57 @@ func VerifC08Opening() {
 		}
 		rt.Assert("c08.open.phase", ph == channel.Acting)
 	}
+}
+
+// VerifC08ProposalDuringUpdate: a sub-channel or virtual channel proposal
+// arrives while an update of the parent channel is in flight (the user's update
+// handler has not answered yet); the update is then accepted. The proposal must
+// be judged against the parent state it finds once it can take the parent's
+// lock, i.e. the state after the update.
+func VerifC08ProposalDuringUpdate() {
+	s := newSituation(true)
+	w := s.w
+	// the peer's update: any redistribution of the parent's funds
+	to := s.pstate.Clone()
+	to.Version++
+	a := gen.Bal()
+	b := new(big.Int).Sub(gen.SumBals(s.pstate.Balances[0]), a)
+	rt.Assume(b.Sign() >= 0)
+	to.Balances = channel.Balances{{a, b}}
+	msg := &client.ChannelUpdateMsg{ChannelUpdate: client.ChannelUpdate{State: to, ActorIdx: 0}, Sig: w.Sign(1, to)}
+	gate, inHandler := make(chan struct{}), make(chan struct{}, 1)
+	uh := client.UpdateHandlerFunc(func(_ *channel.State, _ client.ChannelUpdate, r *client.UpdateResponder) {
+		inHandler <- struct{}{}
+		<-gate
+		ctx, cancel := context.WithTimeout(context.Background(), 1000000000)
+		defer cancel()
+		_ = r.Accept(ctx)
+	})
+	updDone := make(chan struct{})
+	go func() {
+		defer close(updDone)
+		w.Client.VerifHandleChannelUpdate(uh, w.PeerWire, msg)
+	}()
+	<-inHandler
+	d := s.draw(1+rt.Choice(2), 0) // a well-formed sub-channel / virtual channel proposal with arbitrary funds
+	invoked := false
+	ph := client.ProposalHandlerFunc(func(client.ChannelProposal, *client.ProposalResponder) { invoked = true })
+	propDone := make(chan struct{})
+	go func() {
+		defer close(propDone)
+		w.Client.VerifHandleChannelProposal(ph, d.sender, d.prop)
+	}()
+	rt.Quiesce() // the proposal is handled as far as it gets while the update is pending
+	close(gate)
+	rt.QuiesceWait(updDone, 2*time.Second)
+	rt.QuiesceWait(propDone, 2*time.Second)
+	rt.Reach("c08.during")
+	cur := s.parent.VerifMachine().CurrentTX().State
+	rt.Assert("c08.during.update-accepted", cur.Version == to.Version)
+	s.pstate = to // the state the proposal has to be judged against
+	if invoked {
+		rt.Reach("c08.during.invoked")
+		rt.Assert("c08.during.only-valid-proposals", s.validRef(d))
+	}
+	rt.Assert("c08.during.parent-unlocked", s.parent.VerifMachMtxFree())
 }
